@@ -3489,7 +3489,8 @@ class FParser2IR(GenericVisitor):
         return ir.ReturnStmt(**kwargs)
 
     def visit_Cycle_Stmt(self, o, **kwargs):
-        return ir.CycleStmt(**kwargs)
+        name = o.items[1].tostr() if o.items[1] is not None else None
+        return ir.CycleStmt(construct_name=name, **kwargs)
 
     def visit_Continue_Stmt(self, o, **kwargs):
         return ir.ContinueStmt(**kwargs)
@@ -3499,7 +3500,8 @@ class FParser2IR(GenericVisitor):
         return ir.GotoStmt(text=label, **kwargs)
 
     def visit_Exit_Stmt(self, o, **kwargs):
-        return ir.ExitStmt(o.items[1], **kwargs)
+        name = o.items[1].tostr() if o.items[1] is not None else None
+        return ir.ExitStmt(construct_name=name, **kwargs)
 
     def visit_Stop_Stmt(self, o, **kwargs):
         return ir.StopStmt(o.items[1], **kwargs)
